@@ -327,14 +327,15 @@ type world struct {
 	problems []problem
 	timeout  time.Duration
 
-	pfRunning []chan error // prefetch calls that have not returned yet
-	pfMark    int          // request-log position when the running prefetch was started
-	pfBodyOK  bool         // a prefetch body returned nil
-	pfBodyRan bool
-	held      bool
-	bgRan     bool
-	bgOK      bool
-	storeDone func()
+	pfRunning  []chan error // prefetch calls that have not returned yet
+	pfMark     int          // request-log position when the running prefetch was started
+	pfBodyOK   bool         // a prefetch body returned nil
+	pfBodyRan  bool
+	held       bool
+	bgRan      bool
+	bgOK       bool
+	anyTimeout bool
+	storeDone  func()
 }
 
 type problem struct {
@@ -709,6 +710,25 @@ func (w *world) afterPrefetchBody(res string, out *OpOut) {
 	w.checkPrefetchTraffic(out.Reqs, res)
 }
 
+// effectiveRange: the range a prefetch of this layer has to cover, computed from the layer and the configuration
+// alone (-1 = none: no-prefetch landmark); haveLM = it comes from a prefetch landmark.
+func (w *world) effectiveRange() (want int64, haveLM bool) {
+	mr := w.vr.Metadata()
+	if _, _, err := mr.GetChild(mr.RootID(), estargz.NoPrefetchLandmark); err == nil {
+		return -1, false
+	}
+	want = w.c.PrefetchSize
+	if size := w.blob.Size(); want > size {
+		want = size
+	}
+	if id, _, err := mr.GetChild(mr.RootID(), estargz.PrefetchLandmark); err == nil {
+		if off, err := mr.GetOffset(id); err == nil {
+			return off, true
+		}
+	}
+	return want, false
+}
+
 // model-free oracle for the traffic of a prefetch body: clauses 2 and 3 of the property.
 func (w *world) checkPrefetchTraffic(reqs [][2]int64, res string) {
 	c := w.c
@@ -922,7 +942,56 @@ func (w *world) run(obs *Obs) {
 			if w.pfBodyRan && len(w.pfRunning) == 0 && out.Res != "ok" {
 				w.bad("WaitForPrefetchCompletion returned %s although Prefetch had already returned", out.Res)
 			}
+			// "returns when prefetch ends or fails, or after the timeout" (or when the documented async threshold is exceeded
+			// by the range that is really prefetched): a nil return while the download is parked, with no earlier timeout,
+			// is a release nobody asked for; a timeout although the threshold is exceeded is a release that is missing.
+			if len(w.pfRunning) > 0 && !w.pfBodyRan {
+				want, _ := w.effectiveRange()
+				async := c.AsyncSize > 0 && want > c.AsyncSize
+				if out.Res == "ok" && !w.anyTimeout && !async {
+					w.bad("WaitForPrefetchCompletion returned nil while the prefetch of [0,%d) was still downloading (no timeout so far; async threshold %d not exceeded by the prefetched range; configured size %d)", want, c.AsyncSize, c.PrefetchSize)
+				}
+				if out.Res == "timeout" && async {
+					w.bad("WaitForPrefetchCompletion timed out although the prefetched range [0,%d) exceeds the async threshold %d", want, c.AsyncSize)
+				}
+			}
+			if out.Res == "timeout" {
+				w.anyTimeout = true
+			}
+		case "readpart":
+			// one byte of the second chunk of every multi-chunk file: leaves those files partly cached
+			if len(w.pfRunning) > 0 {
+				out.Res = "none"
+				break
+			}
+			mark := w.reg.logLen()
+			for _, fi := range w.files {
+				if fi.Landmark || len(fi.Chunks) < 2 {
+					continue
+				}
+				off := fi.Chunks[1][0]
+				ra, err := w.rd.OpenFile(fi.ID)
+				if err != nil {
+					out.Errs++
+					continue
+				}
+				p := make([]byte, 1)
+				if n, err := ra.ReadAt(p, off); (err != nil && err != io.EOF) || n != 1 {
+					out.Errs++
+				} else if p[0] != fi.content[off] {
+					w.bad("file %s: byte %d read back wrong", fi.name, off)
+				}
+			}
+			out.Res, out.Grew = "ok", w.reg.logLen() > mark
+			if !w.held {
+				pctl.settle()
+				out.Keys, out.HasKeys = w.fsKeys(), true
+			}
 		case "readprio", "readall":
+			if len(w.pfRunning) > 0 {
+				out.Res = "none"
+				break
+			}
 			sel := func(fi *fileInfo) bool { return !fi.Landmark }
 			if o.Op == "readprio" {
 				sel = func(fi *fileInfo) bool { return fi.Prio && !fi.Landmark }
@@ -953,6 +1022,10 @@ func (w *world) run(obs *Obs) {
 				}
 			}
 		case "bg":
+			if len(w.pfRunning) > 0 {
+				out.Res = "none"
+				break
+			}
 			n := o.N
 			if n < 1 {
 				n = 1
